@@ -57,7 +57,7 @@ def build():
     u.take(A, "Challenge", "acme_proto::structs")
     u.raw("acme_proto::structs", SPEC)
     u.verify(A, "TokenChallenge::key_authorization", "acme_proto::structs", props=["C05"], fns={"key_authorization": FnSpec(ret="r", sig="""
-    ensures r matches Ok(ka) ==> ka@ == key_auth(self.token@, *key_pair), //@C05.key_authorization_is_token_dot_thumbprint
+    ensures r matches Ok(ka) ==> ka@ == key_auth(self.token@, *key_pair), //@C05.key_authorization_is_token_dot_thumbprint,C15.key_authorization_is_token_dot_thumbprint
 """, rewrites=[("T-STR", r"thumbprint\.to_string\(\)\.as_bytes\(\)", "crate::vproof::str_as_bytes(&thumbprint.to_string())"),
                ("T-B64", r"b64_encode\(&thumbprint\)", "crate::vproof::b64_encode_bytes(&thumbprint)"),
                ("T-FMT", r"format!\(\"\{\}\.\{thumbprint\}\", self\.token\)", lambda m: fmtx('"{}.{thumbprint}"', ["self.token"]))])})
